@@ -290,8 +290,15 @@ func (h *Handler) saltAuthToken(req *http.Request, remote string) (updatedReq *h
 	}
 	updatedReq.Header = http.Header{}
 	for k, v := range req.Header {
-		if k != "Authorization" {
+		if k != "Authorization" && k != "Cookie" {
 			updatedReq.Header[k] = v
+		}
+	}
+	// The token cookie holds the unsalted token: forward all
+	// cookies except that one.
+	for _, cookie := range req.Cookies() {
+		if cookie.Name != "arvados_api_token" {
+			updatedReq.AddCookie(cookie)
 		}
 	}
 	updatedReq.Header.Set("Authorization", "Bearer "+token)
